@@ -106,6 +106,8 @@ _DUNDER = {'Div': '__truediv__', 'Add': '__add__', 'Sub': '__sub__', 'Mult': '__
 def binop(eng, op, a, b):
     if isinstance(a, Obj) and _DUNDER.get(op) in a.attrs:
         return eng.call(a.attrs[_DUNDER[op]], [b], {})
+    if isinstance(b, Obj) and not isinstance(a, Obj) and _DUNDER.get(op, '__x')[:2] + 'r' + _DUNDER.get(op, '__x')[2:] in b.attrs:
+        return eng.call(b.attrs[_DUNDER[op][:2] + 'r' + _DUNDER[op][2:]], [a], {})
     if isinstance(a, PArr) or isinstance(b, PArr):
         # element-wise numpy arithmetic at the arbitrary index
         src = a if isinstance(a, PArr) else b
